@@ -47,7 +47,11 @@ func (o *Offset) saveToTmp() error {
 	defer func(file *os.File) {
 		_ = file.Close()
 	}(file)
-	return o.Callback.Save(file)
+	if err := o.Callback.Save(file); err != nil {
+		return err
+	}
+	// make the new content durable before Save renames it over the current file
+	return file.Sync()
 }
 
 func (o *Offset) Save() error {
